@@ -87,6 +87,15 @@ def main():
     for s in range(slots):
         sh(f'git -C /repo worktree remove --force /tmp/wt/_vb{s}')
     os.makedirs(f'{VERIF}/benign', exist_ok=True)
+    head = sh('git -C /repo rev-parse --short HEAD')[1].strip()
+    for r in results.values():
+        r['repo_head'] = head
+    prev = {}
+    if os.path.exists(f'{VERIF}/benign/RESULTS.json'):
+        prev = json.load(open(f'{VERIF}/benign/RESULTS.json'))
+    prev.update(results)          # earlier confirmations are kept; probes verified in this run are refreshed
+    new_names = set(results)
+    results = prev
     lines = ['# Behaviour-preserving refactors used as false-alarm probes', '',
              'Written by isolated sub-agents (given one property text and a scratch worktree; nothing from /verif). Confirmed here: the patch applies, the test',
              'suite outcome equals the unmodified tree, and the agent\'s equivalence program (library vs verbatim originals) exits 0.', '',
@@ -96,6 +105,11 @@ def main():
             continue
         d = f'{VERIF}/benign/{name.replace(".", "-")}'
         os.makedirs(d, exist_ok=True)
+        if name not in new_names:
+            meta = json.load(open(f'{d}/meta.json')) if os.path.exists(f'{d}/meta.json') else {}
+            al = ', '.join(f'{p}:{"/".join(v["rules"])}' for p, v in sorted(res.get('alarms', {}).items())) or 'none'
+            lines.append(f'| {name} | {meta.get("kind", "?")} | {res.get("tests_same_as_unmodified")} | rc={res.get("equivalence_rc")} @ {res.get("repo_head", "c010041")} | {al} |')
+            continue
         shutil.copy(f'/tmp/wt/{name}.diff', f'{d}/patch.diff')
         if os.path.exists(f'/tmp/wt/{name}.equiv.py'):
             shutil.copy(f'/tmp/wt/{name}.equiv.py', f'{d}/equiv.py')
@@ -108,7 +122,7 @@ def main():
         meta['confirmed'] = res
         json.dump(meta, open(f'{d}/meta.json', 'w'), indent=1)
         al = ', '.join(f'{p}:{"/".join(v["rules"])}' for p, v in sorted(res['alarms'].items())) or 'none'
-        lines.append(f'| {name} | {meta.get("kind", "?")} | {res["tests_same_as_unmodified"]} | rc={res.get("equivalence_rc")} | {al} |')
+        lines.append(f'| {name} | {meta.get("kind", "?")} | {res["tests_same_as_unmodified"]} | rc={res.get("equivalence_rc")} @ {res.get("repo_head")} | {al} |')
     open(f'{VERIF}/benign/INDEX.md', 'w').write('\n'.join(lines) + '\n')
     json.dump(results, open(f'{VERIF}/benign/RESULTS.json', 'w'), indent=1)
 
